@@ -385,6 +385,146 @@ def task_params(arg):
     return {"counters": counters, "violations": viol, "seen": seen}
 
 
+# ---------------------------------------------------------------- real trials, textbook rule from the harness's own bookkeeping
+REAL_SPECS = [
+    dict(ens="GrandCanonical", atoms="M1", table=[["e", "E_transrot"]], calc="harmonic", T=300.0, mu=-0.1, depth=2, tag="molecular-exchange"),
+    dict(ens="GrandCanonical", atoms="M", table=[["e", "E_transrot"], ["d", "D_rot"]], calc="harmonic", T=400.0, mu=-0.05, depth=2, tag="molecular-exchange+rotation"),
+    dict(ens="GrandCanonical", atoms="A2", table=[["e", "E_trans"], ["d", "D_ball"]], calc="harmonic", T=300.0, mu=-0.1, depth=2, check=True, tag="atomic-exchange+displacement"),
+    dict(ens="HamiltonianCanonical", atoms="A2", table=[["h", "H"]], calc="harmonic", T=300.0, depth=2, check=True, tag="hamiltonian-vetoed-attempts"),
+    dict(ens="HamiltonianCanonical", atoms="A3", table=[["h", "H1"], ["d", "D_ball"]], calc="quartic", T=500.0, depth=2, decos=["momenta"], tag="hamiltonian+displacement"),
+    dict(ens="Canonical", atoms="M", table=[["r", "D_rot"], ["t", "D_trans"]], calc="harmonic", T=300.0, depth=2, check=True, tag="canonical-molecule"),
+    dict(ens="Isobaric", atoms="A3", table=[["c", "C_iso"], ["d", "D_ball"]], calc="harmonic", T=300.0, P=0.005, depth=2, check=True, tag="isobaric+displacement"),
+    dict(ens="Isobaric", atoms="T3", table=[["c", "C_aniso_ns"]], calc="harmonic", T=300.0, P=0.005, depth=2, tag="isobaric-unscaled"),
+]
+
+
+def task_real(spec):
+    """Every execution (proposal answers, geometric-check answers, verdicts) of a real simulation;
+    the threshold of each trial that reached its criteria is compared with the textbook value
+    computed from the configurations before/at the criteria and from the harness's own count of
+    accepted insertions and deletions (nothing is read from the context)."""
+    from qv.drive import execute
+
+    depth = spec["depth"]
+    ens = spec["ens"]
+    tag = spec["tag"]
+    pol = Policy(uniform_q=(0.2, 0.8), angular_q=None, normal_z=(-1.0, 1.0), product_limit=0, branch_calls=1)
+    counters = {"evaluations": 0, "nontrivial": 0, "decisions": 0, "executions": 0}
+    viol, seen, add0 = _adder()
+    T = spec["T"]
+    kT = kB * T
+    cur = {}
+
+    def add(sig, what):
+        add0(sig, what)
+        if viol and viol[-1]["signature"] == sig and not viol[-1]["replay"]:
+            viol[-1]["replay"] = {"check": PID, "func": "task_real", "arg": {**{k: v for k, v in spec.items() if k != "only"}, "only": list(cur["ch"].choices)}}
+
+    def run(ch):
+        sysm, trials = execute(spec, ch, depth, pol)
+        mc = sysm.mc
+        info = {
+            "masses0": sysm.atoms.get_masses().copy(),
+            "calc": sysm.calc_factory(),
+            "template": len(mc.exchange_atoms) if hasattr(mc, "exchange_atoms") else 0,
+            "template_mass": float(mc.exchange_atoms.get_masses().sum()) if hasattr(mc, "exchange_atoms") else 0.0,
+            "V": getattr(mc, "accessible_volume", None),
+            "ref": sysm.atoms.copy(),
+        }
+        op = next((getattr(m, "operation", None) for m in sysm.entries.values() if type(m).__name__ == "HamiltonianDisplacementMove"), None)
+        if op is not None:
+            info["integ"] = (float(op.dt), int(op.max_steps))
+        sysm.close()
+        return trials, info
+
+    def arr(snap, name):
+        a = snap["arrays"][name]
+        return np.frombuffer(a[2], dtype=a[0]).reshape(a[1])
+
+    def back_verlet(info, x, p, m):
+        """Reference velocity Verlet run backwards (time reversal) from the proposed state."""
+        a = info["ref"].copy()
+        a.calc = info["calc"]
+        dt, n = info["integ"]
+        a.positions = x
+        f = a.get_forces()
+        x, p = x.copy(), -p.copy()
+        for _ in range(n):
+            ph = p + 0.5 * f * dt
+            x = x + ph / m[:, None] * dt
+            a.positions = x
+            f = a.get_forces()
+            p = ph + 0.5 * f * dt
+        return x, -p
+
+    if spec.get("only") is not None:
+        ch1 = Chooser(spec["only"])
+        gen = [(ch1, run(ch1))]
+    else:
+        gen = explore(run)
+    for ch, (trials, info) in gen:
+        cur["ch"] = ch
+        counters["executions"] += 1
+        calc = info["calc"]
+        from qv.systems import base_atoms
+
+        labels = spec.get("labels", base_atoms(spec["atoms"])[1]["labels"])
+        N = spec.get("nex", len({l for l in labels if l >= 0}))
+        for t in trials:
+            if t.error is not None:
+                add(f"C02/real/{tag}/exception:{t.error['type']}@{t.error['qwhere']}", t.error["msg"])
+                break
+            ac = t.at_criteria
+            if ac is None or not t.thresholds or t.pre is None:
+                continue
+            x0 = arr(t.pre, "positions")
+            n0 = t.pre["n"]
+            e_old = calc.energy_of(x0) if n0 else 0.0
+            e_new = calc.energy_of(ac["positions"]) if ac["n"] else 0.0
+            dE = e_new - e_old
+            thr = t.thresholds[-1]
+            where = f"{tag}: trial of {t.name}, history {js([[x.name, x.verdict] for x in trials])}"
+            dn = ac["n"] - n0
+            if dn and (not info["template"] or dn % info["template"]):
+                add(f"C02/real/{tag}/atom-count-not-a-multiple-of-the-template", where)
+                break
+            if ens == "GrandCanonical" and dn:
+                k = dn // info["template"]
+                if abs(k) != 1:
+                    continue  # several particles in one trial: not a clause of the statement
+                L3 = lam_cubed(info["template_mass"], T)
+                V, mu = info["V"], spec["mu"]
+                if k > 0:
+                    logA = math.log(V / (L3 * (N + 1))) + (mu - dE) / kT
+                else:
+                    logA = math.log(L3 * N / V) + (-mu - dE) / kT
+                judge(thr, None, logA, 1e-7, f"C02/real/{tag}/{'insertion' if k > 0 else 'deletion'}", where + f" N={N}", add, counters)
+                if t.verdict is True:
+                    N += k
+                continue
+            if t.name == "h" and "integ" in info:
+                m = arr(t.pre, "masses") if "masses" in t.pre["arrays"] else info["masses0"]
+                p1 = ac["momenta"]
+                xb, pb = back_verlet(info, ac["positions"], p1, m)
+                if np.abs(xb - x0).max() > 1e-8:
+                    counters["not_reversible_to_pre_trial_positions"] = counters.get("not_reversible_to_pre_trial_positions", 0) + 1
+                    continue  # the proposal is not a trajectory from the pre-trial positions: C14's statement
+                k_old = float((pb**2 / (2 * m[:, None])).sum())
+                k_new = float((p1**2 / (2 * m[:, None])).sum())
+                logA = -((e_new + k_new) - (e_old + k_old)) / kT
+                judge(thr, None, logA, 1e-7, f"C02/real/{tag}/hamiltonian", where, add, counters)
+                continue
+            if ens in ("Isobaric", "Isotension") and t.name == "c":
+                ck = t.pre["cell"]
+                c0 = np.frombuffer(ck[2], dtype=ck[0]).reshape(ck[1])
+                V0, V1 = abs(np.linalg.det(c0)), abs(np.linalg.det(ac["cell"]))
+                logA = -(dE + spec["P"] * (V1 - V0)) / kT + (ac["n"] + 1) * math.log(V1 / V0)
+                judge(thr, None, logA, 1e-9, f"C02/real/{tag}/cell", where, add, counters)
+                continue
+            judge(thr, None, -dE / kT, 1e-9, f"C02/real/{tag}/displacement", where, add, counters)
+    return {"counters": counters, "violations": viol, "seen": seen}
+
+
 def run(tier, seed):
     rep = Report("exploration")
     acc = Acc()
@@ -392,6 +532,7 @@ def run(tier, seed):
     jobs += [("task_npt", {"tier": tier, "cell": c}) for c in CELLS]
     jobs += [("task_gc", {"tier": tier, "T": [T]}) for T in T_GRID]
     jobs += [("task_params", {"ens": e, "depth": 2 if tier == "quick" else 3}) for e in PARAMS]
+    jobs += [("task_real", {**sp, "depth": sp["depth"] + (1 if tier == "thorough" else 0)}) for sp in REAL_SPECS]
     notes = set()
     results = []
     from qv import runner
@@ -424,3 +565,8 @@ def run(tier, seed):
     }
     rep.assumptions = ["textbook formulas evaluated with ase.units constants; 1e-7 log-tolerance where the de Broglie wavelength enters (CODATA amu vs 1e-3/N_A)", "nothing is claimed between grid points"]
     return rep
+
+
+def replay(data):
+    res = {"task_real": task_real}[data["func"]](data["arg"])
+    return {"signatures": sorted({v["signature"] for v in res["violations"]})}
